@@ -34,10 +34,10 @@ PROP = {
              "extra genesis identifiers; the history is cut into cases of 6-14 consecutive blocks, each starting from the observed state. distinct = "
              "distinct sha1 of the whole case; non-trivial = at least one hook notification was delivered; the per-(block,identifier) branch of the "
              "model's tick that each input exercises is counted in input_distribution (branch=...)"),
-    "explanation": ("Theorems (Coq, 12, all closed under the global context) about the executable model of BeginBlocker/AddEpochInfo/MultiEpochHooks "
+    "explanation": ("Theorems (Coq, 13, all closed under the global context) about the executable model of BeginBlocker/AddEpochInfo/MultiEpochHooks "
                     "for ALL stores with distinct identifiers and ALL block lists: first tick, tick iff t > start+duration (catch-up one per block), "
                     "start-time law, exact shape / order / exactly-once of the per-identifier hook log with fan-out, independence of identifiers, "
-                    "monotonicity, frozen invalid entries. The model is tied to the code by running both on the same generated histories (state after "
+                    "monotonicity, frozen invalid entries, whole-run catch-up (k blocks each more than k durations late: number +k, log exactly end(n),start(n+1) per block). The model is tied to the code by running both on the same generated histories (state after "
                     "every block and every hook call compared; on the full app: state + epoch_end/epoch_start ABCI events). The property itself is "
                     "evaluated on the implementation's observations only: step_ok per block and identifier (proved of the model: "
                     "C15_tick_meets_statement) and hook_hist_ok per identifier over the whole history (proved of the model: C15_hooks_monitor), plus the "
